@@ -573,3 +573,13 @@ Theorem C20_lost_label_causes :
   only_erases same /\ only_erases erase2.
 Proof. exact lost_label_causes. Qed.
 Print Assumptions C20_lost_label_causes.
+
+(* ---- ring double bonds: the cut-off of MoleculeStereo.__chiral_centers that decides whether fix_stereo keeps their label ---- *)
+Theorem C20_ring_double_bond_cutoff : forall sizes, ring_bond_chiral sizes = true <-> (forall x, In x sizes -> 8 <= x).
+Proof. exact ring_bond_chiral_cutoff. Qed.
+Print Assumptions C20_ring_double_bond_cutoff.
+
+Theorem C20_ring_double_bond_cutoff_examples :
+  ring_bond_chiral [8] = true /\ ring_bond_chiral [7] = false /\ ring_bond_chiral [9; 12] = true /\ ring_bond_chiral [10; 6] = false.
+Proof. exact ring_bond_chiral_examples. Qed.
+Print Assumptions C20_ring_double_bond_cutoff_examples.
